@@ -31,7 +31,7 @@ def run(ctx, db, tier):
 def value_before_notify(ctx, db):
     rid = ctx.rule('C15.value-before-notify', 'ORDER+COUNT', 'every collector::operator() overload: on every path the current-value pointer is written (to the stored copy or to the caller\'s lvalue) '
                    'before notify_awaiters(), which is called exactly once and whose suspend point is returned; ~state writes null to the pointer and then notifies exactly once', floor=3)
-    T = Tracer(db, depth=0)
+    T = htracer(db)
     fns = db.need('cocls::signal::collector::operator()')
     seen = {}
     for f in fns:
@@ -59,7 +59,7 @@ def value_before_notify(ctx, db):
                 ret = [it for it in tr if it.k == 'return']
                 if not ret or 'notify_awaiters' not in (ret[-1].get('path') or ''):
                     o = value_origin(f, f.ev(ret[-1].get('ret_ev'))) if ret and ret[-1].get('ret_ev') is not None and f.ev(ret[-1].get('ret_ev')) is not None else None
-                    if o is None or norm(o.get('callee') or '') != 'cocls::signal::state::notify_awaiters':
+                    if (o is None or norm(o.get('callee') or '') != 'cocls::signal::state::notify_awaiters') and 'notify_awaiters' not in (origin_in_trace(tr, len(tr), ret_expr(tr))[0] or ''):
                         bad = bad or ('the suspend point of the released listeners is not returned to the caller', tr)
         k = f['key']
         if k in seen and not bad:
@@ -71,7 +71,9 @@ def value_before_notify(ctx, db):
         bad = None
         for tr in trs:
             w = all_indices(tr, lambda ev: ev.k == 'write' and field_of(ev) == CUR and ev.get('const') == 0)
-            n = all_indices(tr, callee_is('cocls::signal::state::notify_awaiters'))
+            # released through notify_awaiters() or directly by detaching the chain (awaiter::resume_chain(_chain))
+            n = all_indices(tr, lambda ev: ev.k == 'call' and ev.get('depth', 0) == 0 and (norm(ev.get('callee')) == 'cocls::signal::state::notify_awaiters' or
+                                                                                          (norm(ev.get('callee')) == 'cocls::awaiter::resume_chain' and any(norm(a.get('field') or '') == 'cocls::signal::state::_chain' for a in ev.get('args', [])))))
             if len(n) != 1 or not w or w[0] > n[0]:
                 bad = tr
         ctx.ob(rid, f, f['key'], bad is None, '~state: pointer cleared, then every waiting listener released once', desc='~state does not clear the value and then release the chain once')
@@ -116,7 +118,16 @@ def alive_or_fail(ctx, db):
         bad = None; nthrow = nret = 0
         for tr in trs:
             thr = [it for it in tr if it.k == 'throw']
-            vals = {it.get('var') for it in tr if it.k == 'decl' and (it.get('init') or '').endswith('_cur_val')}
+            vals = set(); nullvars = set()
+            for i_, it in enumerate(tr):
+                if it.k == 'decl' and it.get('init'):
+                    ri = resolve_select(it['init'], tr[:i_]) or ''
+                    if ri.endswith('_cur_val'):
+                        vals.add(it.get('var'))
+                    elif ri in NULLS:
+                        nullvars.add(it.get('var'))
+            if any(it.k == 'branch' and null_test(tr, i) and null_test(tr, i)[0] in nullvars and null_test(tr, i)[1] for i, it in enumerate(tr)):
+                continue          # infeasible: a local initialised to null on this path tested non-null
             got = any(it.k == 'branch' and null_test(tr, i) and ('_cur_val' in (null_test(tr, i)[0] or '') or null_test(tr, i)[0] in vals) and null_test(tr, i)[1] for i, it in enumerate(tr))
             if live(tr):
                 nret += 1
@@ -137,7 +148,7 @@ def alive_or_fail(ctx, db):
 def self_owning(ctx, db):
     rid = ctx.rule('C15.self-owning', 'COUNT+NO-TOUCH', 'connect()\'s heap awaiter: every path of resume() and initial_reg() performs exactly one of re-subscribe to the chain or delete this, and '
                    'touches nothing of the object afterwards (after re-subscription another thread may already have resumed and deleted it)', floor=2)
-    T = Tracer(db, depth=1, inline_filter=lambda c, e, callee: callee['nname'].endswith('::Awt::resume') and c['nname'].endswith('::initial_reg'))
+    T = htracer(db, extra=lambda c, e, callee: callee['nname'].endswith('::Awt::resume') and c['nname'].endswith('::initial_reg'))
     targets = [f for f in db.all_instances() if f['nname'].startswith('cocls::signal::connect') and f['nname'].endswith(('::Awt::resume', '::Awt::initial_reg')) and not f.get('lambda')]
     if len({t['nname'].split('::')[-1] for t in targets}) < 2:
         raise Broken('connect()::Awt::resume / initial_reg not instantiated')
@@ -150,9 +161,11 @@ def self_owning(ctx, db):
             acts = all_indices(tr, lambda ev: (ev.k == 'call' and norm(ev.get('callee')) == 'cocls::awaiter::subscribe') or (ev.k == 'delete' and ev.get('path') == 'this'))
             if len(acts) != 1:
                 bad = bad or ('a path re-subscribes/deletes %d times (leak or double free / double registration)' % len(acts), tr); continue
-            for it in tr[acts[0] + 1:]:
-                if it.get('depth', 0) != tr[acts[0]].get('depth', 0) and False:
-                    continue
+            after = acts[0] + 1
+            if tr[acts[0]].get('expanded'):
+                # the publishing call was expanded in place: its own body (the CAS retry loop) is not "after" it
+                after = next((j + 1 for j in range(acts[0] + 1, len(tr)) if tr[j].k == 'leave' and tr[j].ev.get('id') == tr[acts[0]].get('id') and tr[j].get('depth') == tr[acts[0]].get('depth', 0)), after)
+            for it in tr[after:]:
                 p = it.get('path') or it.get('recv') or ''
                 if it.k in ('read', 'write') and rooted(p, 'this') and p != 'this':
                     bad = bad or ('the awaiter is touched after it was re-subscribed / deleted', tr)
@@ -183,7 +196,8 @@ def hook_up(ctx, db):
     fns = [f for f in db.all_instances() if f['nname'] == 'cocls::signal::hook_up_emitter::await_suspend']
     if not fns:
         raise Broken('hook_up_emitter::await_suspend not instantiated')
-    T = Tracer(db, depth=0)
+    T = htracer(db, extra=lambda c, e, callee: False)
+    T = Tracer(db, depth=2, inline_filter=lambda c, e, callee: is_helper(db, c, callee) and callee['nname'] != 'cocls::signal::emitter::await_suspend')
     f = fns[0]
     trs = [t for t in T.traces(f) if live(t)]
     ctx.paths(rid, len(trs))
